@@ -118,6 +118,17 @@ Definition set_try (E : genv) (b : bool) : genv :=
 (* may a call to g be placed here: throwing functions only where the exception is caught
    (or passed on by a function that is itself marked throwing)                             *)
 Definition thr_ok (E : genv) (g : fsig) : bool := (negb (gs_thr g) || gInTry E || gThr E)%bool.
+(* List constructs at the top level of a file: never below an `if` (statement or expression)
+   and never with an `if` inside them -- the pinned compiler loses the List(T) imports /
+   qualified names there (same family of defect as above: `empty?` of a List(String) "did not
+   match any possible parameter type ... could be suitable if imported" inside a top-level
+   `if`).  Inside functions every shape is generated.                                        *)
+Definition lists_ok (E : genv) : bool := (fList (gFe E) && negb (gTop E && gNoTry E))%bool.
+Definition is_list (t : ty) : bool := match t with TList _ => true | _ => false end.
+Definition force_noif (E : genv) : genv :=
+  mkGenv (gFe E) (gG E) (gF E) (gL E) (gCnt E) (gTop E) (gRet E) (gLoop E) (gPureF E) (gSelf E) true
+         (gNoLoop E) (gInTry E) (gThr E) (gNoTry E).
+Definition sig_has_list (g : fsig) : bool := existsb is_list (gs_ret g :: gs_params g).
 Definition topq (E : genv) : bool := (gTop E && fQual (gFe E))%bool.
 Definition no_top_loop (E : genv) : genv :=
   if gTop E
@@ -211,7 +222,7 @@ Definition leaf (E : genv) (m : mode) (t : ty) (r : rng) : expr :=
 
 (* callable functions with result t in mode m *)
 Definition callable (E : genv) (m : mode) (t : ty) : list fsig :=
-  filter (fun g => (ty_eqb (gs_ret g) t && thr_ok E g
+  filter (fun g => (ty_eqb (gs_ret g) t && thr_ok E g && (lists_ok E || negb (sig_has_list g))
                     && match m with
                        | MAny => negb (gPureF E) || gs_pure g
                        | MPure => gs_pure g
@@ -239,6 +250,7 @@ Definition arg_mode (m : mode) (r : rng) (n : nat) (j : nat) : mode :=
 
 (* ---------------- expressions and statements ---------------- *)
 Fixpoint gen_expr (sz : nat) (E : genv) (m : mode) (t : ty) (r : rng) {struct sz} : expr :=
+  let E := if (gTop E && is_list t)%bool then force_noif E else E in
   match sz with
   | O => leaf E m t r
   | S k =>
@@ -246,22 +258,28 @@ Fixpoint gen_expr (sz : nat) (E : genv) (m : mode) (t : ty) (r : rng) {struct sz
     let args2 (t1 t2 : ty) := [gen_expr k E (am 2%nat 0%nat) t1 (ch r 1); gen_expr k E (am 2%nat 1%nat) t2 (ch r 2)] in
     let c := rn r 0 12 in
     if c <? 3 then leaf E m t r
-    else if (c <? 8) && fList (gFe E) && rb r 30 1 5 then
+    else if (c <? 8) && lists_ok E && rb r 30 1 5 then
       (* list observers; first / l.i guarded by empty? (the list expression is pure and is
          written twice)                                                                  *)
-      let b := match t with TMI | TBool => pick_elem E r 31 | _ => bty_of t end in
-      let l := gen_expr k E (sub_mode m) (TList b) (ch r 1) in
+      let ba := pick_elem E r 31 in                 (* any element type: for #, empty?, = *)
+      let bt := bty_of t in                         (* element type = wanted type: first, l.i *)
+      let la := gen_expr k E (sub_mode m) (TList ba) (ch r 1) in
+      let lt := gen_expr k E (sub_mode m) (TList bt) (ch r 1) in
+      let pick_first :=
+          if gTop E then leaf E m t r
+          else if rb r 33 1 2 then EIf (EPrim (PLEmptyQ bt) [lt]) (gen_lit t (ch r 3)) (EPrim (PLFirst bt) [lt])
+          else EIf (EPrim (PLEmptyQ bt) [lt]) (gen_lit t (ch r 3))
+                   (EPrim (PLNth bt) [lt; EPrim (PAdd NMI) [EPrim (PMod NMI) [gen_expr k E (sub_mode m) TMI (ch r 4); EPrim (PLLen bt) [lt]];
+                                                            ELit (LNum NMI 1)]]) in
       match t with
-      | TBool => if rb r 32 1 2 then EPrim (PLEmptyQ b) [l]
-                 else EPrim (if rb r 33 1 2 then PLEq b else PLNe b) [l; gen_expr k E (sub_mode m) (TList b) (ch r 2)]
       | TList _ => leaf E m t r
-      | _ =>
-          if (match t with TMI => rb r 32 1 2 | _ => false end) then EPrim (PLLen b) [l]
-          else if negb (existsb (bty_eqb b) (elem_types (gFe E))) then leaf E m t r
-          else if rb r 33 1 2 then EIf (EPrim (PLEmptyQ b) [l]) (gen_lit t (ch r 3)) (EPrim (PLFirst b) [l])
-          else EIf (EPrim (PLEmptyQ b) [l]) (gen_lit t (ch r 3))
-                   (EPrim (PLNth b) [l; EPrim (PAdd NMI) [EPrim (PMod NMI) [gen_expr k E (sub_mode m) TMI (ch r 4); EPrim (PLLen b) [l]];
-                                                          ELit (LNum NMI 1)]])
+      | TBool =>
+          let o := rn r 32 3 in
+          if o <? 1 then EPrim (PLEmptyQ ba) [la]
+          else if o <? 2 then EPrim (if rb r 34 1 2 then PLEq ba else PLNe ba) [la; gen_expr k E (sub_mode m) (TList ba) (ch r 2)]
+          else pick_first
+      | TMI => if rb r 32 1 2 then EPrim (PLLen ba) [la] else pick_first
+      | _ => if existsb (bty_eqb bt) (elem_types (gFe E)) then pick_first else leaf E m t r
       end
     else if c <? 8 then
       (* library operation *)
@@ -328,7 +346,7 @@ Fixpoint gen_expr (sz : nat) (E : genv) (m : mode) (t : ty) (r : rng) {struct sz
           let o := rn r 3 6 in
           let l := gen_expr k E (sub_mode m) (TList b) (ch r 1) in
           if o <? 2 then EPrim (PLCons b) [gen_expr k E (sub_mode m) (ty_of_bty b) (ch r 2); l]
-          else if o <? 3 then EIf (EPrim (PLEmptyQ b) [l]) l (EPrim (PLRest b) [l])    (* guarded rest *)
+          else if (o <? 3) && negb (gTop E) then EIf (EPrim (PLEmptyQ b) [l]) l (EPrim (PLRest b) [l])    (* guarded rest *)
           else if o <? 4 then EPrim (PLRev b) [l]
           else EListLit b (map (fun i => gen_expr k E (sub_mode m) (ty_of_bty b) (ch r (Z.of_nat i + 5)))
                                (seq 0 (Z.to_nat (rn r 4 4))))
@@ -359,7 +377,9 @@ Fixpoint gen_expr (sz : nat) (E : genv) (m : mode) (t : ty) (r : rng) {struct sz
       end
     else if c <? 11 then
       if gNoIf E then leaf E m t r
-      else EIf (gen_expr k E m TBool (ch r 1)) (gen_expr k E m t (ch r 2)) (gen_expr k E m t (ch r 3))
+      else if (gTop E && is_list t)%bool then leaf E m t r
+      else let Ei := no_top_loop E in
+           EIf (gen_expr k Ei m TBool (ch r 1)) (gen_expr k Ei m t (ch r 2)) (gen_expr k Ei m t (ch r 3))
     else
       match m with
       | MAny =>
@@ -387,8 +407,9 @@ with gen_stmts (sz : nat) (E : genv) (vs : option ty) (r : rng) {struct sz} : li
   let asg_g := idx_where (fun d : ty * vkind => k_assignable (snd d)) 0 (gG E) in
   let asg_l := idx_where (fun d : ty * vkind => k_assignable (snd d)) 0 (gL E) in
   let print1 (k : nat) :=
-      let t1 := gen_ty (gFe E) r 30 in
-      let t2 := gen_ty (gFe E) r 31 in
+      let tys := if lists_ok E then val_types (gFe E) else filter (fun t => negb (is_list t)) (val_types (gFe E)) in
+      let t1 := pick r 30 tys TMI in
+      let t2 := pick r 31 tys TMI in
       if rb r 32 1 2 then [SPrint [gen_expr k E MAny t1 (ch r 33)]]
       else [SPrint [gen_expr k E MPure t1 (ch r 33); ELit (LStr " "%string); gen_expr k E MPure t2 (ch r 34)]] in
   let assign (k : nat) :=
@@ -425,21 +446,21 @@ with gen_stmts (sz : nat) (E : genv) (vs : option ty) (r : rng) {struct sz} : li
         [STry (gen_block k (no_top_loop (set_try E (full || gInTry E))) None (S (Z.to_nat (rn r 3 3))) (ch r 4))
               (map (fun j => (j, gen_block k (no_top_loop E) None (Z.to_nat (rn r (5 + Z.of_nat j) 2)) (ch r (8 + Z.of_nat j)))) ks)]
       else if (c <? 19) && fExn (gFe E) && (gInTry E || gThr E) then
-        if gNoIf E then [] else [SIf (gen_expr k E MAny TBool (ch r 1)) [SThrow (Z.to_nat (rn r 2 3))] []]
+        if gNoIf E then [] else [SIf (gen_expr k (no_top_loop E) MAny TBool (ch r 1)) [SThrow (Z.to_nat (rn r 2 3))] []]
       else if fErr (gFe E) && rb r 1 1 3 then
         if gNoIf E then []
-        else [SIf (gen_expr k E MAny TBool (ch r 2))
+        else [SIf (gen_expr k (no_top_loop E) MAny TBool (ch r 2))
                   [if rb r 3 1 4 then SNever else SError (ELit (LStr (gen_str 2 (ch r 4))))] []]
       else simple k
     else if c <? 4 then simple k
     else if c <? 7 then assign k
     else if (c <? 9) && gNoIf E then assign k
     else if c <? 9 then
-      [SIf (gen_expr k E MAny TBool (ch r 1))
+      [SIf (gen_expr k (no_top_loop E) MAny TBool (ch r 1))
            (gen_block k (no_top_loop E) None (S (Z.to_nat (rn r 2 2))) (ch r 3))
            (if rb r 4 1 2 then [] else gen_block k (no_top_loop E) None (S (Z.to_nat (rn r 5 2))) (ch r 6))]
     else if c <? 11 then
-      if (fList (gFe E) && fFor (gFe E) && negb (gNoLoop E) && rb r 7 1 3)%bool then
+      if (lists_ok E && fFor (gFe E) && negb (gNoLoop E) && rb r 7 1 3)%bool then
         let b := pick_elem E r 8 in
         let E' := set_noif (set_loop (set_L E (gL E ++ [(ty_of_bty b, KConst)])) true) in
         [SForIn b (gen_expr k E MAny (TList b) (ch r 1)) (gen_block k E' None (S (Z.to_nat (rn r 5 3))) (ch r 6))]
@@ -470,16 +491,16 @@ with gen_stmts (sz : nat) (E : genv) (vs : option ty) (r : rng) {struct sz} : li
       (* exits and jumps *)
       match vs with
       | Some t =>
-          if fExit (gFe E) then [SExitV (gen_expr k E MAny TBool (ch r 1)) (gen_expr k E MAny t (ch r 2))]
+          if fExit (gFe E) then [SExitV (gen_expr k (no_top_loop E) MAny TBool (ch r 1)) (gen_expr k E MAny t (ch r 2))]
           else assign k
       | None =>
           if gLoop E then
             let j := if rb r 1 1 2 then SBreak else SIterate in
-            if fExit (gFe E) then [SExit (gen_expr k E MAny TBool (ch r 2)) j]
-            else if gNoIf E then [] else [SIf (gen_expr k E MAny TBool (ch r 2)) [j] []]
+            if fExit (gFe E) then [SExit (gen_expr k (no_top_loop E) MAny TBool (ch r 2)) j]
+            else if gNoIf E then [] else [SIf (gen_expr k (no_top_loop E) MAny TBool (ch r 2)) [j] []]
           else if fExit (gFe E) then
             match assign k with
-            | [s] => [SExit (gen_expr k E MAny TBool (ch r 2)) s]
+            | [s] => [SExit (gen_expr k (no_top_loop E) MAny TBool (ch r 2)) s]
             | _ => []
             end
           else assign k
@@ -487,12 +508,13 @@ with gen_stmts (sz : nat) (E : genv) (vs : option ty) (r : rng) {struct sz} : li
     else if c <? 14 then
       match gRet E with
       | Some t => if gNoIf E then []
-                  else [SIf (gen_expr k E MAny TBool (ch r 1)) [SReturn (gen_expr k E MAny t (ch r 2))] []]
+                  else [SIf (gen_expr k (no_top_loop E) MAny TBool (ch r 1)) [SReturn (gen_expr k E MAny t (ch r 2))] []]
       | None => simple k
       end
     else
       (* call for effect *)
-      match filter (fun g => (negb (gs_pure g) && thr_ok E g)%bool) (if gPureF E then [] else gF E) with
+      match filter (fun g => (negb (gs_pure g) && thr_ok E g && (lists_ok E || negb (sig_has_list g)))%bool)
+                   (if gPureF E then [] else gF E) with
       | [] => simple k
       | g0 :: gs' =>
           let g := pick r 1 (g0 :: gs') g0 in
